@@ -562,6 +562,20 @@ pub fn generate(s: &mut Session, thorough: bool) -> bool {
         let t = -1e-6 + 6e-6 * rng.f64_unit();
         g.point("random", z, t);
     }
+    // the exact 8 ns grid across t = 0: negative multiples of the step must be refused like every
+    // other negative time (a "time lies exactly on a row" fast path that converts a negative row number:
+    // seed C18-12), non-negative ones reproduce the rows
+    {
+        let step = 8e-9f64;
+        for z in [0.0, 0.34875, -0.34875, 0.7, -0.9, 1.1, 1.152, -1.152] {
+            for k in -260i64..=40 {
+                g.point("grid-across-zero", z, k as f64 * step);
+            }
+            for k in [-1_000_000i64, -125_000, -100_000, -12_500] {
+                g.point("grid-across-zero", z, k as f64 * step);
+            }
+        }
+    }
     let n_runs = if thorough { 2_000 } else { 100 };
     for _ in 0..n_runs {
         let z = -1.16 + 2.32 * rng.f64_unit();
